@@ -1308,12 +1308,20 @@ func (s *compoundState) txLockInitial(args *nfsv4.Lock4args, openStateID nfs40Re
 
 	// Create a new lock-owner file. Set the sequence ID to zero, as
 	// txLockCommon() will already bump it to one.
+	lockCount := new(int)
+	for _, other := range los.files {
+		if other.openOwnerFile.openedFile == oofs.openedFile {
+			lockCount = other.lockCount
+			break
+		}
+	}
 	lofs := &nfs40LockOwnerFileState{
 		lockOwner:      los,
 		openOwnerFile:  oofs,
 		shareAccess:    oofs.shareCount.clone(oofs.shareAccess),
 		lockOwnerIndex: len(los.files),
 		stateID:        p.newRegularStateID(0),
+		lockCount:      lockCount,
 	}
 	p.lockOwnerFilesByOther[lofs.stateID.other] = lofs
 	oofs.lockOwnerFiles[los] = lofs
@@ -1326,10 +1334,7 @@ func (s *compoundState) txLockInitial(args *nfsv4.Lock4args, openStateID nfs40Re
 	// lock-owner file. This may also remove the lock-owner if it
 	// references no other files.
 	if response.GetStatus() != nfsv4.NFS4_OK {
-		if lofs.lockCount > 0 {
-			panic("Failed to acquire lock on a newly created lock-owner file, yet its lock count is non-zero")
-		}
-		lofs.remove(p, nil)
+		lofs.removeWithoutUnlocking(p, nil)
 	}
 	return response
 }
@@ -1347,8 +1352,8 @@ func (s *compoundState) txLockCommon(args *nfsv4.Lock4args, lofs *nfs40LockOwner
 	if res != nil {
 		return res
 	}
-	lofs.lockCount += lockCount
-	if lofs.lockCount < 0 {
+	*lofs.lockCount += lockCount
+	if *lofs.lockCount < 0 {
 		panic("Negative lock count")
 	}
 	lofs.stateID.seqID = nextSeqID(lofs.stateID.seqID)
@@ -1432,8 +1437,8 @@ func (s *compoundState) txLocku(args *nfsv4.Locku4args, lockStateID nfs40Regular
 	if st != nfsv4.NFS4_OK {
 		return &nfsv4.Locku4res_default{Status: st}
 	}
-	lofs.lockCount += lockCountDelta
-	if lofs.lockCount < 0 {
+	*lofs.lockCount += lockCountDelta
+	if *lofs.lockCount < 0 {
 		panic("Negative lock count")
 	}
 	lofs.stateID.seqID = nextSeqID(lofs.stateID.seqID)
@@ -2021,7 +2026,7 @@ func (s *compoundState) opReleaseLockowner(args *nfsv4.ReleaseLockowner4args) nf
 		//
 		// More details: RFC 7530, section 16.37.4, last sentence.
 		for _, lofs := range los.files {
-			if lofs.lockCount > 0 {
+			if *lofs.lockCount > 0 {
 				return nfsv4.ReleaseLockowner4res{Status: nfsv4.NFS4ERR_LOCKS_HELD}
 			}
 		}
@@ -3056,19 +3061,33 @@ type nfs40LockOwnerFileState struct {
 	// Variable fields.
 	lockOwnerIndex int
 	stateID        nfs40RegularStateID
-	lockCount      int
+
+	// The number of byte-range lock entries the lock-owner holds in
+	// the opened file. Because those entries are keyed by lock-owner
+	// only, the count is shared between all lock-owner files of the
+	// same lock-owner that refer to the same opened file through
+	// different open-owners.
+	lockCount *int
 }
 
 func (lofs *nfs40LockOwnerFileState) remove(p *nfs40Program, ll *leavesToClose) {
-	if lofs.lockCount > 0 {
+	if *lofs.lockCount > 0 {
 		// Lock-owner still has one or more locks held on this
 		// file. Issue an unlock operation that spans the full
 		// range of the file to release all locks at once.
-		lofs.lockCount += lofs.openOwnerFile.openedFile.UnlockAll(&lofs.lockOwner.owner)
-		if lofs.lockCount != 0 {
+		*lofs.lockCount += lofs.openOwnerFile.openedFile.UnlockAll(&lofs.lockOwner.owner)
+		if *lofs.lockCount != 0 {
 			panic("Failed to release locks")
 		}
 	}
+	lofs.removeWithoutUnlocking(p, ll)
+}
+
+// removeWithoutUnlocking removes the lock-owner file, leaving any
+// byte-range locks of the lock-owner in place. This is used to undo the
+// creation of a lock-owner file whose initial LOCK failed: the
+// lock-owner may hold locks on the file through another open-owner.
+func (lofs *nfs40LockOwnerFileState) removeWithoutUnlocking(p *nfs40Program, ll *leavesToClose) {
 
 	// Remove the lock-owner file from maps.
 	delete(p.lockOwnerFilesByOther, lofs.stateID.other)
